@@ -8,6 +8,7 @@ import CprocVerif.Lemmas.PPArgs
 import CprocVerif.Lemmas.PPArgsExec
 import CprocVerif.Lemmas.PPSubst
 import CprocVerif.Lemmas.PPObjFuel
+import CprocVerif.Lemmas.PPFunStep
 
 /-!
 # C12 — macro definition and expansion follow C11 6.10.3 on the implemented subset
@@ -392,22 +393,24 @@ example : errOf (collect [pA, pA] 0 0 [] [] [num b!"1", tk .TRPAREN]) = some .no
 example : errOf (collect [pA] 0 0 [] [] [tk .TLPAREN, num b!"1"]) = some .eofInArgs := by decide +kernel
 
 /-- **`expandfunc`, as executed by `exec`, is `collect`** — for an invocation whose tokens come
-straight from the scanner (empty context stack) and contain no new-line, `#`, end of file,
-scanner diagnostic or macro name: the same verdict (`Agrees`: accepted, or the same diagnostic),
+straight from the scanner (empty context stack) and — as far as `collect` reads them (`PlainFor`:
+up to the closing parenthesis when it accepts) — contain no new-line, `#`, end of file, scanner
+diagnostic or macro name: the same verdict (`Agrees`: accepted, or the same diagnostic),
 exactly the tokens up to `collect`'s `)` consumed, and for every parameter the argument `collect`
 cut out is stored — its tokens (identifiers painted) if the parameter is used plainly, its
 `stringize` string if it is used with `#` (`mkArg`).  With `split_args_correct` and
 `stringize_correct`: the stored arguments are the top-level-comma split of the reference and their
 6.10.3.2p2 spellings. -/
 theorem expandfunc_is_collect (m : Macro) (st : St) (hctx : st.ctx = [])
-    (hpl : ∀ x ∈ st.raw, PlainTok st.macros x) (hne : 0 < m.params.length) :
+    (hpl : PlainFor st.macros st.raw (collect m.params 0 0 [] [] st.raw)) (hne : 0 < m.params.length) :
     Agrees m.params m.name st (.expandfunc m) (collect m.params 0 0 [] [] st.raw) :=
   expandfunc_collect m st hctx hpl hne
 
 def mF : Macro := { func := true, name := b!"F", params := [pA, pV] }
 def stF : St := { raw := [num b!"1", tk .TCOMMA, tk .TLPAREN, num b!"2", tk .TCOMMA, ident b!"y", tk .TRPAREN,
                           tk .TRPAREN, ident b!"x"], macros := [mF] }
-example : stF.ctx = [] ∧ (∀ x ∈ stF.raw, PlainTok stF.macros x) ∧ 0 < mF.params.length := by decide +kernel
+example : stF.ctx = [] ∧ PlainFor stF.macros stF.raw (collect mF.params 0 0 [] [] stF.raw) ∧ 0 < mF.params.length :=
+  ⟨rfl, plainFor_of_all (by decide +kernel) _, by decide⟩
 
 /-! ## 7b. Lazy parameter substitution (6.10.3.1, 6.10.3.2)
 
@@ -458,6 +461,61 @@ example : flat [mG] [⟨mG.body, some b!"G"⟩] =
     [num b!"1" true, num b!"2" true, ⟨.TSTRINGLIT, some b!"\"y\"", true, false⟩, ident b!"x" true] := by decide +kernel
 example : ∃ s, exec 5 .ctxnext { raw := [], ctx := [⟨mG.body, some b!"G"⟩], macros := [mG] } = .ok s ∧
     s.rb = true ∧ s.rt = num b!"1" true := ⟨_, rfl, rfl, rfl⟩
+
+/-! ## 7c. One simple function-like invocation, end to end
+
+`SimpleFun F`: function-like, at least one parameter, no `...`, no `#`, use flags as `define` sets
+them.  The invocation is read from the source text (empty context stack), its arguments contain no
+macro name, new-line or `#` (`PlainFor`, only as far as `collect` reads), and `collect` accepts. -/
+
+/-- **The model's new context is the reference's new source.**  `expand` completes, consumes exactly
+`( … )` (the `)` that the reference's `matchParen` finds), and what the pushed frame will deliver
+(`flat`: the replacement list with parameters lazily replaced) equals — by class and spelling — the
+list `B` that the reference puts in front of the rest of the source in its own step on this
+invocation (second conjunct: `expandH` with one more unit of fuel on `name ( args ) X` is `expandH`
+on `B ++ X`, for every continuation `X`). -/
+theorem function_like_step_correct (F : Macro) (T lp : Tok) (r : List Tok) (st : St) (args : List (List Tok))
+    (rest : List Tok) (hsf : SimpleFun F) (hnd : (st.macros.map (·.name)).Nodup)
+    (hctx : st.ctx = []) (hprag : st.prag = false) (hTk : T.kind = .TIDENT) (hTh : T.hide = false)
+    (hget : macroget st.macros (T.lit.getD []) = some F) (hFh : F.hide = false)
+    (hraw : st.raw = lp :: r) (hlp : lp.kind = .TLPAREN)
+    (hcol : collect F.params 0 0 [] [] r = .ok (args, rest))
+    (hpl : PlainFor st.macros r (collect F.params 0 0 [] [] r)) :
+    ∃ seg rp, r = seg ++ rp :: rest ∧ rp.kind = .TRPAREN ∧
+    ∃ n s2, exec n (.expand T) st = .ok s2 ∧ s2.rb = true ∧ s2.raw = rest ∧ s2.depth = st.depth + 1 ∧
+      (flat s2.macros s2.ctx).map Tok.key =
+        (MacroRef.respace (MacroRef.hsadd [F.name]
+          (MacroRef.subst (fun i => (MacroRef.splitTop (seg.length + 1) 0 (seg.map hT) []).getD i [])
+                 (fun i => (MacroRef.splitTop (seg.length + 1) 0 (seg.map hT) []).getD i [])
+                 (MacroRef.elems (toDefF F) (toDefF F).body) false)) T.space).1.map k2' ∧
+      ∀ (K : Nat) (X : List MacroRef.Item), seg.length < K →
+        outKeys (MacroRef.expandH false (K + 1) (tblF st.macros)
+            (.tok (mkH [] T) :: .tok (mkH [] lp) :: (seg.map iT ++ iT rp :: X))) =
+          outKeys (MacroRef.expandH false K (tblF st.macros)
+            ((MacroRef.respace (MacroRef.hsadd [F.name]
+                (MacroRef.subst (fun i => (MacroRef.splitTop (seg.length + 1) 0 (seg.map hT) []).getD i [])
+                       (fun i => (MacroRef.splitTop (seg.length + 1) 0 (seg.map hT) []).getD i [])
+                       (MacroRef.elems (toDefF F) (toDefF F).body) false)) T.space).1.map MacroRef.Item.tok ++
+             MacroRef.pendItems (MacroRef.respace (MacroRef.hsadd [F.name]
+                (MacroRef.subst (fun i => (MacroRef.splitTop (seg.length + 1) 0 (seg.map hT) []).getD i [])
+                       (fun i => (MacroRef.splitTop (seg.length + 1) 0 (seg.map hT) []).getD i [])
+                       (MacroRef.elems (toDefF F) (toDefF F).body) false)) T.space).2 X)) :=
+  funclike_step F T lp r st args rest hsf hnd hctx hprag hTk hTh hget hFh hraw hlp hcol hpl
+
+-- non-vacuity: `#define H(a, b) b + a a` and the text `H ( 1 , ( 2 , y ) ) x`
+def pB : Param := { name := b!"b", ftok := true }
+def mH : Macro := { func := true, name := b!"H", params := [pA, pB],
+                    body := [ident b!"b" true, tk .TADD none true, ident b!"a" true, ident b!"a" true] }
+def rawH : List Tok := [num b!"1", tk .TCOMMA, tk .TLPAREN, num b!"2", tk .TCOMMA, ident b!"y", tk .TRPAREN,
+                        tk .TRPAREN, ident b!"x"]
+example : SimpleFun mH :=
+  ⟨rfl, by decide, by decide, by decide, by
+    intro t ht i hi
+    simp only [mH, List.mem_cons, List.mem_nil_iff, or_false] at ht
+    rcases ht with rfl | rfl | rfl | rfl <;> revert hi <;> revert i <;> decide⟩
+example : (collect mH.params 0 0 [] [] rawH).toOption =
+    some ([[num b!"1"], [tk .TLPAREN, num b!"2", tk .TCOMMA, ident b!"y", tk .TRPAREN]], [ident b!"x"]) := by decide +kernel
+example : PlainFor [mH] rawH (collect mH.params 0 0 [] [] rawH) := plainFor_of_all (by decide +kernel) _
 
 /-! ## 8. Function-like macros: the full statement, and why it is false today
 
